@@ -167,12 +167,16 @@ func init() {
 
 // enumShape returns configuration j of the exhaustive family of C05: 9 small shapes x all
 // 4^3 assignments of {unset, shared, contextual, non_shared} to (a, b, c).
-func enumShape(j int) *gen.Cfg {
+func enumShape(j int) *gen.Cfg { return enumShapeRaw(j % EnumFamily) }
+
+// enumMember returns the k-th member of the family in the order used for prop.
+func enumMember(prop string, k int) *gen.Cfg { return enumShapeRaw(enumOrder(prop)[k%EnumFamily]) }
+
+func enumShapeRaw(j int) *gen.Cfg {
 	scopes := []string{"", "shared", "contextual", "non_shared"}
 	// a fixed order of the family: first the members whose assignment contains both a shared and a
 	// contextual scope (where the legality rule can go wrong either way), then the rest; each part in a
 	// fixed permutation, so that any prefix samples all shapes
-	j = enumOrder()[j%EnumFamily]
 	shape, as := j%9, j/9
 	sc := []string{scopes[as%4], scopes[(as/4)%4], scopes[(as/16)%4]}
 	fx := `"` + gen.FxPath + `"`
@@ -270,7 +274,7 @@ func GenBatch(t Target, prop string, seed uint64, n int, outdir string, nenum in
 		case prop == "C15":
 			cfg, name = enumCfg15(), "cenum"
 		default:
-			cfg, name = enumShape(i-n), fmt.Sprintf("e%03d", i-n)
+			cfg, name = enumMember(prop, i-n), fmt.Sprintf("e%03d", i-n)
 		}
 		cfg.Meta.Pkg = &name
 		danglingFlag := false
@@ -357,11 +361,16 @@ func GenOne(t Target, cfg *gen.Cfg, outdir string) *GenOut {
 	return out
 }
 
-var enumOrderCache []int
+var enumOrderCache = map[string][]int{}
 
-func enumOrder() []int {
-	if enumOrderCache != nil {
-		return enumOrderCache
+// enumOrder fixes the order in which the family is used. C05: first the members whose assignment
+// contains both a shared and a contextual scope (where the legality rule can go wrong either way);
+// C20: first the legal members that contain a contextual service (the ones that can be run and where
+// instances must be kept apart per context). Each part in a fixed permutation, so that any prefix
+// samples all shapes.
+func enumOrder(prop string) []int {
+	if o, ok := enumOrderCache[prop]; ok {
+		return o
 	}
 	var first, rest []int
 	for k := 0; k < EnumFamily; k++ {
@@ -376,12 +385,16 @@ func enumOrder() []int {
 				cx = true
 			}
 		}
-		if sh && cx {
+		pick := sh && cx
+		if prop == "C20" {
+			pick = cx && len(gen.ScopeViolations(enumShapeRaw(j))) == 0
+		}
+		if pick {
 			first = append(first, j)
 		} else {
 			rest = append(rest, j)
 		}
 	}
-	enumOrderCache = append(first, rest...)
-	return enumOrderCache
+	enumOrderCache[prop] = append(first, rest...)
+	return enumOrderCache[prop]
 }
